@@ -3,6 +3,7 @@ package props
 import (
 	"encoding/json"
 	"fmt"
+	"google.golang.org/protobuf/proto"
 	"net/url"
 	"os"
 	"path/filepath"
@@ -245,6 +246,27 @@ func c17CheckAccepted(c *sim.Case, cfg *configv1.Config, src string) {
 	}
 	if len(cfg.GetChains()) == 0 {
 		bad("no-chains", "accepted configuration has no chains")
+	}
+	// every filter owns its settings: no two filters (and no filter and the default) share a sub-message, or a value
+	// that one of them discovers or reconciles later shows up in the other
+	owner := map[any]string{}
+	claim := func(who string, ms ...proto.Message) {
+		for _, m := range ms {
+			if m == nil || !m.ProtoReflect().IsValid() {
+				continue
+			}
+			if prev, dup := owner[m]; dup && prev != who {
+				bad("filters-share-a-sub-message", "%s and %s hold the same %T object", prev, who, m)
+			}
+			owner[m] = who
+		}
+	}
+	for ci, ch := range cfg.GetChains() {
+		for fi, f := range ch.GetFilters() {
+			if o := f.GetOidc(); o != nil {
+				claim(fmt.Sprintf("chain %d filter %d", ci, fi), o, o.GetLogout(), o.GetIdToken(), o.GetAccessToken(), o.GetJwksFetcher(), o.GetRedisSessionStoreConfig(), o.GetClientSecretRef())
+			}
+		}
 	}
 	for _, ch := range cfg.GetChains() {
 		if len(ch.GetFilters()) == 0 {
@@ -534,7 +556,14 @@ func c17Grammar(c *sim.Case) {
 		if c17Odd > 0 {
 			// one odd value somewhere: may make the pair invalid only after merging
 			tgt := []doc{def, ov}[sim.Pick(c, "oddwhere", 2)]
-			switch sim.Pick(c, "oddwhat", 5) {
+			switch sim.Pick(c, "oddwhat", 8) {
+			case 5:
+				// a callback that is not an absolute URL: relative references, dot segments
+				tgt["callback_uri"] = sim.PickStr(c, "odd.relcb", "..", "/.", "/x/..", "../?tenant=a", "cb", "./", "//")
+			case 6:
+				tgt["scopes"] = []any{sim.PickStr(c, "odd.scope", "openid_groups", "OpenID", "myopenid", "https://idp.test/scopes/openid.x")}
+			case 7:
+				tgt["logout"] = doc{"path": sim.PickStr(c, "odd.logout", "/logout%", ":logout", "/?logout", "//", "/cb/")}
 			case 0:
 				tgt["logout"] = doc{"path": "/cb"}
 			case 1:
